@@ -732,6 +732,10 @@ func fieldsUsed(pkg *packages.Package, node ast.Node) (reads, writes map[*types.
 			}
 		case *ast.IncDecStmt:
 			lhs[ast.Unparen(x.X)] = true
+		case *ast.UnaryExpr:
+			if x.Op == token.AND { // &s.f handed to a callee that fills it
+				lhs[ast.Unparen(x.X)] = true
+			}
 		case *ast.CompositeLit:
 			for _, el := range x.Elts {
 				if kv, ok := el.(*ast.KeyValueExpr); ok {
